@@ -3,6 +3,7 @@ package props
 import (
 	"fmt"
 	"go/token"
+	"go/types"
 	"strings"
 
 	"elaverif/ssau"
@@ -184,6 +185,42 @@ func runC16(c *Ctx) {
 			})
 		}
 	}
+	// G-skip: both merged iterators step over database keys that the pending layer overrides
+	c.R.Rule("G-skip", "cursor.skipPendingUpdates and dbCacheIterator.skipPendingUpdates return with a still valid database iterator only when its key is in neither pendingRemove nor pendingKeys of the layer above (a key that is pending is served by the pending/cache iterator; leaving it in the database iterator yields it twice or resurrects a removed key)")
+	for _, rt := range []string{"cursor", "dbCacheIterator"} {
+		f := c.fn(ffl, rt, "skipPendingUpdates")
+		if f == nil {
+			continue
+		}
+		validFalse := func(i *ssa.If) (bool, bool) {
+			x, neg := ssau.StripNot(i.Cond)
+			if cl, ok := x.(*ssa.Call); ok && cl.Call.IsInvoke() && cl.Call.Method.Name() == "Valid" {
+				return true, neg // required arm: Valid() == false
+			}
+			return false, false
+		}
+		for _, fld := range []string{"pendingRemove", "pendingKeys"} {
+			has := treapCall(fld, "Has")
+			cut := ssau.NewCut()
+			nv := c.matchGuards(f, validFalse, cut, 0)
+			nh := c.matchGuards(f, func(i *ssa.If) (bool, bool) {
+				x, neg := ssau.StripNot(i.Cond)
+				if cl, ok := x.(*ssa.Call); ok && has(&cl.Call) {
+					return true, neg // required arm: Has(key) == false
+				}
+				return false, false
+			}, cut, 0)
+			r := ssau.ReachFromEntry(f, cut)
+			bad := ""
+			for _, ret := range ssau.Returns(f) {
+				if r.Instr(ret) {
+					bad = c.posOf(ret)
+				}
+			}
+			c.R.Check("G-skip", rt+".skipPendingUpdates|stops only on a key not in "+fld, nv > 0 && nh > 0 && bad == "", c.pos(f.Pos()),
+				fmt.Sprintf("the function can return with a valid database iterator without %s.Has(key) having answered false (tests found: Valid %d, Has %d)", fld, nv, nh))
+		}
+	}
 	// who may call commitTx / writePendingAndCommit
 	if f := c.fn(ffl, "dbCache", "commitTx"); f != nil {
 		cs := c.staticCallers(f)
@@ -321,6 +358,68 @@ func runC17(c *Ctx) {
 	c.R.Rule("G-rollback", "blockStore.handleRollback: the delete loop decrements wc.curFileNum itself (so the file opened and truncated afterwards is the rollback file), Truncate uses the old offset and is followed by Sync; the deferred cursor reset assigns both fields")
 	c.R.Rule("G-reconcile", "openDB returns only through reconcileDB; reconcileDB truncates through handleRollback(metadata file, metadata offset) exactly when the files on disk are ahead of the metadata and reports corruption when they are behind (decision table over the four cursor values)")
 
+	c.R.Rule("G-atomic", "dbCache.commitTreaps hands every key and removal to leveldb inside one leveldb transaction: all Put/Delete calls (in its closures) are on the *leveldb.Transaction that the single updateDB call passes in, none goes to the *leveldb.DB directly or through a separately written batch; updateDB opens the transaction, discards it when the callback fails and commits it (checked) otherwise")
+	if ct := c.fn(ffl, "dbCache", "commitTreaps"); ct != nil {
+		recvTypeName := func(cm *ssa.CallCommon) string {
+			o := ssau.CalleeObj(cm)
+			if o == nil {
+				return ""
+			}
+			sig, ok := o.Type().(*types.Signature)
+			if !ok || sig.Recv() == nil || o.Pkg() == nil || !strings.HasSuffix(o.Pkg().Path(), "goleveldb/leveldb") {
+				return ""
+			}
+			return ssau.TypeName(sig.Recv().Type()) + "." + o.Name()
+		}
+		fns := []*ssa.Function{ct}
+		var addAnon func(f *ssa.Function)
+		addAnon = func(f *ssa.Function) {
+			for _, a := range f.AnonFuncs {
+				fns = append(fns, a)
+				addAnon(a)
+			}
+		}
+		addAnon(ct)
+		nTx, bad := 0, ""
+		for _, f := range fns {
+			for _, b := range f.Blocks {
+				for _, in := range b.Instrs {
+					ci, ok := in.(ssa.CallInstruction)
+					if !ok {
+						continue
+					}
+					switch n := recvTypeName(ci.Common()); n {
+					case "Transaction.Put", "Transaction.Delete":
+						nTx++
+					case "":
+					default:
+						// any other leveldb write API (DB.Put/Delete/Write, Batch.*, Transaction.Write ...)
+						if strings.HasPrefix(n, "DB.") || strings.HasPrefix(n, "Batch.") || strings.HasSuffix(n, ".Write") {
+							bad = n + " at " + c.posOf(in)
+						}
+					}
+				}
+			}
+		}
+		ud := ssau.CallsIn(ct, callPred(R{ffl, "dbCache", "updateDB"}))
+		c.R.Check("G-atomic", "commitTreaps|one leveldb transaction", len(ud) == 1 && nTx >= 2 && bad == "", c.pos(ct.Pos()),
+			fmt.Sprintf("%d updateDB call(s), %d writes on the leveldb transaction, writes that bypass it: %q", len(ud), nTx, bad))
+	}
+	if ud := c.fn(ffl, "dbCache", "updateDB"); ud != nil {
+		lv := func(name string) func(*ssa.CallCommon) bool {
+			return func(cm *ssa.CallCommon) bool {
+				o := ssau.CalleeObj(cm)
+				return o != nil && o.Name() == name && o.Pkg() != nil && strings.HasSuffix(o.Pkg().Path(), "goleveldb/leveldb")
+			}
+		}
+		c.G1s("G-atomic", "updateDB|commit checked on success", ud, "ldbTx.Commit", lv("Commit"), G1Opt{})
+		// the callback's failure never reaches Commit
+		cb := func(cm *ssa.CallCommon) bool { return cm.StaticCallee() == nil && !cm.IsInvoke() && paramNamed(cm.Value, "fn") }
+		for _, cm := range ssau.CallsIn(ud, lv("Commit")) {
+			c.G2("G-atomic", "updateDB|commit only after the callback succeeded", ud, cm, "fn(ldbTx) == nil", isErrNilOf(cb))
+		}
+		c.R.Check("G-atomic", "updateDB|opens a transaction", len(ssau.CallsIn(ud, lv("OpenTransaction"))) == 1, c.pos(ud.Pos()), "updateDB starts exactly one leveldb transaction")
+	}
 	fl := c.fn(ffl, "dbCache", "flush")
 	c.checkedBefore("G-sync-order", "flush|syncBlocks before commitTreaps", fl, "store.syncBlocks()", callPred(R{ffl, "blockStore", "syncBlocks"}), "commitTreaps", callPred(R{ffl, "dbCache", "commitTreaps"}))
 	ct := c.fn(ffl, "dbCache", "commitTx")
